@@ -154,6 +154,24 @@ func main() {
 				}
 			}
 		}
+		// the directory the packages are loaded from: the module root, or (like the toolchain,
+		// which finds go.mod in a parent directory) a sub-directory of the module; given with
+		// -dir while goose runs somewhere else, or as the working directory with no -dir at all
+		ldir, cwd, dirArgs := root, root, []string{"-dir", root}
+		for _, p := range present {
+			if p == "sub/good2" && r.Intn(3) == 0 {
+				ldir = filepath.Join(root, "sub")
+				patterns = [][]string{{"./..."}, {"./good2"}, {"./good2/..."}, {"."}}[r.Intn(4)]
+			}
+		}
+		switch r.Intn(3) {
+		case 0:
+			cwd, dirArgs = ldir, nil
+		case 1:
+			cwd, dirArgs = os.TempDir(), []string{"-dir", ldir}
+		default:
+			cwd, dirArgs = root, []string{"-dir", ldir}
+		}
 		extra := []string{}
 		if r.Intn(3) == 0 {
 			extra = append(extra, "-typecheck")
@@ -163,7 +181,7 @@ func main() {
 		}
 		// what the toolchain matches
 		lc := exec.Command("go", append([]string{"list", "-e", "-tags", "goose", "-f", "{{.ImportPath}}"}, patterns...)...)
-		lc.Dir = root
+		lc.Dir = ldir
 		lc.Env = goEnv()
 		lout, _ := lc.Output()
 		var matched []string
@@ -198,11 +216,11 @@ func main() {
 		prior := r.Intn(6)
 		switch prior {
 		case 1: // identical: a previous run with the same arguments
-			args := append([]string{"-out", outDir, "-dir", root}, extra...)
+			args := append(append([]string{"-out", outDir}, dirArgs...), extra...)
 			if ignore {
 				args = append(args, "-ignore-errors")
 			}
-			runGoose(*goose, root, append(args, patterns...)...)
+			runGoose(*goose, cwd, append(args, patterns...)...)
 		case 2: // different contents at the places the run will write
 			for _, m := range matched {
 				p := filepath.Join(outDir, strings.NewReplacer(".", "_", "-", "_").Replace(m)+".v")
@@ -237,11 +255,11 @@ func main() {
 			fmt.Fprintf(w, "X %s %s\n", hx(k), hx(before[k]))
 		}
 		// the run under test
-		args := append([]string{"-out", outDir, "-dir", root}, extra...)
+		args := append(append([]string{"-out", outDir}, dirArgs...), extra...)
 		if ignore {
 			args = append(args, "-ignore-errors")
 		}
-		code, stderr := runGoose(*goose, root, append(args, patterns...)...)
+		code, stderr := runGoose(*goose, cwd, append(args, patterns...)...)
 		if strings.Contains(stderr, "goroutine ") {
 			code = 222
 		}
